@@ -2,7 +2,8 @@
    unbounded.  The live tables enter through c12_live_table (re-checked on every run). *)
 From Coq Require Import String List Bool NArith.
 From Verif Require Import Base.Str Base.Py Base.Py2 Base.Xml Base.ClassTable C12.Model C12.Spec C12.Xsd C12.Proofs C12.Live C12.Source2
-  C12.Build C12.BuildProofs C12.XsdKept.
+  C12.Build C12.BuildProofs C12.XsdKept C12.Prefix.
+From Verif Require C12.Corr C12.SeqProofs.     (* not imported: Corr.PNone / Py2.PNone *)
 From VerifGen Require Import ClassTables C12Schema C12Src2.
 Import ListNotations.
 
@@ -417,3 +418,87 @@ Theorem c12_source2_add_members :
     = PList [PNone; enc_elem tag (dset_all qname_eqb acc (known_attrs ci oa)) text].
 Proof. exact src2_add_members_is_model. Qed.
 Print Assumptions c12_source2_add_members.
+
+(* ---------------------------------------------------------------- strengthening round 5: HISTORIES of serialisation calls
+   (to_string(nspair) / register_prefix / to_string_force_namespace on long-lived instances in one process; C12/Prefix.v,
+   Corr.SEQ, C12/SeqProofs.v).
+
+   The process-global prefix registry behind register_prefix (ElementTree.register_namespace, the ValueError for a
+   prefix of ElementTree's own form ns<N> ignored): after EVERY history of calls, with any arguments, starting from what
+   ElementTree ships with, the registered prefixes are pairwise distinct and none has the reserved form ... *)
+Theorem c12_prefix_history : forall hist, map_ok (fold_left register_prefix hist builtin_map).
+Proof. intros hist. apply history_ok. exact builtin_ok. Qed.
+Print Assumptions c12_prefix_history.
+
+Theorem c12_prefix_history_any : forall m hist, map_ok m -> map_ok (fold_left register_prefix hist m).
+Proof. intros m hist. apply history_ok. Qed.
+Print Assumptions c12_prefix_history_any.
+
+(* ... and under such a registry the namespace declarations ElementTree writes on the root, for ANY tree (any list of
+   namespaces in first-use order), are one per namespace with pairwise distinct prefixes - what is written is
+   well-formed and every name reads back in its own namespace *)
+Theorem c12_prefix_declarations_distinct : forall m uris,
+  map_ok m -> NoDup (map snd (assign m uris [])) /\ NoDup (map fst (assign m uris [])).
+Proof. exact assign_nodup. Qed.
+Print Assumptions c12_prefix_declarations_distinct.
+
+(* the check Coq evaluates on the OBSERVED registry after every step is that invariant *)
+Theorem c12_prefix_map_check : forall m, map_ok_b m = true <-> map_ok m.
+Proof. exact map_ok_b_iff. Qed.
+Print Assumptions c12_prefix_map_check.
+
+(* the invariant is needed: a registry with one prefix for two namespaces breaks every tree that uses both ... *)
+Theorem c12_prefix_dup_breaks : forall m u1 u2 p,
+  dget String.eqb u1 m = Some p -> dget String.eqb u2 m = Some p -> u1 <> u2 -> p <> "xml"%string ->
+  assign m [u1; u2] [] = [(u1, p); (u2, p)].
+Proof. exact dup_prefix_breaks. Qed.
+Print Assumptions c12_prefix_dup_breaks.
+
+(* ... and writing the pairs straight into the map (what the ET < 1.3 fallback of register_prefix does) does not keep
+   it: the same prefix asked for a second namespace later, or a prefix ns<N>, give a registry under which a tree is
+   declared with one prefix twice, where register_prefix keeps the registry usable *)
+Theorem c12_prefix_direct_write_refuted :
+  (exists np1 np2, map_ok_b (direct_write (direct_write builtin_map np1) np2) = false
+                   /\ map_ok_b (register_prefix (register_prefix builtin_map np1) np2) = true)
+  /\ (exists np, map_ok_b (direct_write builtin_map np) = false /\ map_ok_b (register_prefix builtin_map np) = true
+                 /\ exists uris, nodup_b String.eqb (map snd (assign (direct_write builtin_map np) uris [])) = false).
+Proof. exact direct_write_refuted. Qed.
+Print Assumptions c12_prefix_direct_write_refuted.
+
+(* every history of to_string() / to_string(nspair) / register_prefix(nspair) calls, of any length, on any number of
+   instances in the sense of the property, under a consistent table and from a usable registry: what is observed in
+   agreement with the model (the registry follows register_prefix, every call leaves the instance as it was and writes
+   ser T o) satisfies the property at every step - registry usable, instance unchanged, the same well-formed document
+   in schema order every time, parsed back to the instance that was built (Corr.step_ok) *)
+Theorem c12_history : forall T X objs gm0 steps,
+  wf_table T = true -> xsd_consistent_b T X = true ->
+  Forall (SeqProofs.in_domain T) objs -> map_ok gm0 ->
+  (forall s, In s steps -> Corr.writes (Corr.st_op s) = true -> Corr.exact_op (Corr.st_op s) = true) ->
+  (forall s so, In s steps -> nth_error objs (Corr.st_j s) = Some so ->
+                pseudo_clash (Corr.step_binds (Corr.st_gm s) (Corr.st_op s)) (to_tree T (Corr.dense T so)) = false) ->
+  Corr.agrees_steps T objs gm0 steps = true ->
+  map_ok_b gm0 && forallb (Corr.step_ok T X objs steps) steps = true.
+Proof. intros T X objs gm0 steps W XC. exact (SeqProofs.seq_agrees_holds T X W XC objs gm0 steps). Qed.
+Print Assumptions c12_history.
+
+(* for the live classes and the registry ElementTree starts with *)
+Theorem c12_live_history : forall objs steps,
+  Forall (SeqProofs.in_domain live_table) objs ->
+  (forall s, In s steps -> Corr.writes (Corr.st_op s) = true -> Corr.exact_op (Corr.st_op s) = true) ->
+  (forall s so, In s steps -> nth_error objs (Corr.st_j s) = Some so ->
+                pseudo_clash (Corr.step_binds (Corr.st_gm s) (Corr.st_op s)) (to_tree live_table (Corr.dense live_table so)) = false) ->
+  Corr.agrees_steps live_table objs builtin_map steps = true ->
+  map_ok_b builtin_map && forallb (Corr.step_ok live_table live_xsd objs steps) steps = true.
+Proof. intros objs steps. exact (SeqProofs.seq_agrees_holds_builtin live_table live_xsd live_table_ok live_xsd_ok objs steps). Qed.
+Print Assumptions c12_live_history.
+
+(* non-vacuity: to_string({"p": "urn:x"}) followed by to_string() on the nil AttributeValue of the one-class table *)
+Theorem c12_history_sat :
+  let so := Corr.SO 0%N [] [] [] [(xsi_nil, "true"%string)] (Some ""%string) in
+  let t := ser b_table (Corr.dense b_table so) in
+  let m := register_prefix builtin_map [("p", "urn:x")]%string in
+  let steps := [Corr.SStep 0 (Corr.SNs [("p", "urn:x")]%string) m so (Some t) (Corr.POk so) 1; Corr.SStep 0 Corr.SPlain m so (Some t) (Corr.POk so) 2] in
+  SeqProofs.in_domain b_table so /\ Corr.agrees_steps b_table [so] builtin_map steps = true
+  /\ Corr.holds_seq b_table [] builtin_map [so] steps = true.
+Proof. vm_compute. repeat split; reflexivity. Qed.
+Print Assumptions c12_history_sat.
